@@ -6,6 +6,7 @@ package stack
 
 import (
 	"bytes"
+	"context"
 	"crypto/sha256"
 	"encoding/hex"
 	"encoding/json"
@@ -56,6 +57,9 @@ type Stack struct {
 	Addr  string
 	Root  string
 	HTTP  *http.Client
+
+	ctx    context.Context // cancelled at the end of the scenario: aborts calls of parties without a process
+	cancel context.CancelFunc
 
 	mu       sync.Mutex
 	bodies   map[string]string // sha -> label of the first event that carried this body
@@ -147,6 +151,7 @@ func New(opt Options) (*Stack, error) {
 		HTTP:     &http.Client{Transport: &http.Transport{DisableKeepAlives: true, MaxIdleConns: 0}},
 		bodies:   map[string]string{},
 		intAgent: map[string]string{}, intGen: map[string]int{}}
+	s.ctx, s.cancel = context.WithCancel(context.Background())
 	// wait until the Runtime API accepts connections (Listen runs in a goroutine)
 	if !opt.Port0 {
 		deadline := time.Now().Add(5 * time.Second)
@@ -166,6 +171,14 @@ func New(opt Options) (*Stack, error) {
 }
 
 func (s *Stack) Close() { os.RemoveAll(s.Root) }
+
+// AbortClients ends every outstanding client call (end of scenario): no supervisor events.
+func (s *Stack) AbortClients() {
+	s.cancel()
+	for _, p := range s.Sup.All() {
+		p.cancel()
+	}
+}
 
 // Init calls Server.Init like the front end's InitHandler does.
 func (s *Stack) Init() {
@@ -335,6 +348,8 @@ func (s *Stack) do(p *Proc, method, path string, hdr map[string]string, body []b
 	}
 	if p != nil {
 		req = req.WithContext(p.ctx)
+	} else {
+		req = req.WithContext(s.ctx)
 	}
 	for k, v := range hdr {
 		req.Header.Set(k, v)
@@ -529,7 +544,7 @@ func (s *Stack) ExtRegister(p *Proc, who, name string, events []string, features
 	r := s.do(p, "POST", "/2020-01-01/extension/register", h, body)
 	id := r.Header.Get("Lambda-Extension-Identifier")
 	if r.Status == 200 && id != "" {
-		g := s.curGen()
+		g := cid // identifiers are tied to the registration call that issued them
 		if p != nil && p.Kind == "ext" && p.Base == name {
 			p.mu.Lock()
 			p.AgentID = id
@@ -581,6 +596,8 @@ func (s *Stack) ExtNext(p *Proc, who, idClass string) CallResult {
 	h := map[string]string{}
 	if id := s.AgentID(p, who, idClass); id != "" {
 		h["Lambda-Extension-Identifier"] = id
+	} else if idClass == "" {
+		idClass = "missing" // this party never obtained an identifier
 	}
 	cid := s.Rec.Emit(who, "NextCall", "who", who, "gen", gen(p), "idc", idClass, "idgen", s.idGen(p, who))
 	r := s.do(p, "GET", "/2020-01-01/extension/event/next", h, nil)
@@ -611,6 +628,8 @@ func (s *Stack) ExtError(p *Proc, who, which, idClass, errType string) CallResul
 	h := map[string]string{}
 	if id := s.AgentID(p, who, idClass); id != "" {
 		h["Lambda-Extension-Identifier"] = id
+	} else if idClass == "" {
+		idClass = "missing"
 	}
 	if errType != "" {
 		h["Lambda-Extension-Function-Error-Type"] = errType
